@@ -384,6 +384,11 @@ class Algebra(object):
 
     def ite(self, t, env, lift):
         c, a, b = t.a
+        # ite(c1 && c2, A, ite(c1, B, A)) = ite(c1, ite(c2, A, B), A): the shape an early `return A` inside `if c1 { if c2 ..`
+        # takes once the exits are merged
+        if c.op == "and" and b.op == "ite" and b.a[2] is a and any(x is b.a[0] for x in c.a):
+            rest = tm.and_(*[x for x in c.a if x is not b.a[0]])
+            return self.ite(tm.mk("ite", b.a[0], tm.mk("ite", rest, a, b.a[1]), a), env, lift)
         f = self.pwx if lift else self.sx
         cv = self.const_cond(c, env, lift)
         if cv is True:
@@ -400,6 +405,15 @@ class Algebra(object):
         lm = self.load_match(c, pa, pb, env, lift)
         if lm is not None:
             return lm
+        # ite(c, lmatch(y), 1) = lmatch([c]*y), since the load-matching function is 1 at 0 (the same function written
+        # with the guard on the use outside instead of inside its argument)
+        for pl, po in ((pa, pb), (pb, pa)):
+            if po.const_value() == 1:
+                al = self.atom_of(pl)
+                if al is not None and al.kind == "lmatch":
+                    ic = self.ind(c, env, lift) if pl is pa else padd(const(1), self.ind(c, env, lift), -1)
+                    px = pmul(ic, al.parts[0])
+                    return self.atom(("lmatch", self.pid(px)), True, "lmatch", (px,))
         # b + [c]*(a - b)   (indicator atoms are idempotent; per-step when the condition is)
         return padd(pb, pmul(self.ind(c, env, lift), padd(pa, pb, -1)))
 
